@@ -7,7 +7,7 @@ Require Import BB.Base.Str BB.Base.Xml BB.Base.Dict BB.Model.PegSyntax BB.Model.
 Require Import BB.Gen.Grammar BB.Gen.TablesTypes BB.Gen.TablesXsl BB.Gen.TablesReadme.
 Require Import BB.Proofs.Tables BB.Proofs.KeywordElement BB.Proofs.HierShape.
 Require Import BB.Model.Eid BB.Model.EidSpec BB.Model.PreParse BB.Model.Convert BB.Gen.TablesParser BB.Gen.TablesLibs BB.Proofs.EscapeLossless.
-Require Import BB.Proofs.PegEscape BB.Proofs.PegPlain BB.Proofs.PegLine BB.Proofs.LineRule BB.Proofs.PlainLine BB.Proofs.PlainLineConvert BB.Proofs.HierElement BB.Proofs.HierElementConvert BB.Proofs.HierChain BB.Proofs.PreParseStair BB.Proofs.HierChainConvert.
+Require Import BB.Proofs.PegEscape BB.Proofs.PegPlain BB.Proofs.PegLine BB.Proofs.LineRule BB.Proofs.PlainLine BB.Proofs.PlainLineConvert BB.Proofs.HierElement BB.Proofs.HierElementConvert BB.Proofs.HierNoHeading BB.Proofs.HierNoHeadingConvert BB.Proofs.HierChain BB.Proofs.PreParseStair BB.Proofs.HierChainConvert.
 
 (* README.md against akn.peg and types.py (all three regenerated from /repo on every run) *)
 Theorem C04_readme_keywords_in_grammar : subset readme_line_keywords (keywords akn_peg) = true.
@@ -167,6 +167,34 @@ Theorem C04_hier_element_converts_blank_lines : forall uri prefix kw n uh ut k b
   = OkR (hier_x tag [(EID, cand)] [(EID, cand ++ DUSCORE ++ P1)] n (decode uh) (decode ut)).
 Proof. exact hier_element_converts_units_b. Qed.
 Print Assumptions C04_hier_element_converts_blank_lines.
+
+(* ... and the commonest form in legislation, the element WITHOUT a heading (subsections, paragraphs):
+       KEYWORD num
+         line
+   converts to <tag eId="<prefix__>abbr_num"><num>num</num><content><p eId="...__p_1">line</p></content></tag> - no heading element,
+   the same eIds - for each of the 34 keywords, any number of blank lines in between, any indentation (Proofs/HierNoHeading.v: the num
+   loop stops at the line end, `hier_element_heading_heading` fails there and leaves the heading empty; Proofs/HierNoHeadingConvert.v). *)
+Theorem C04_hier_element_without_heading_converts : forall uri prefix kw n ut k b root_meta att_meta,
+  assoc_str uri meta_templates = Some (root_meta, att_meta) ->
+  In kw hier_keywords ->
+  num_ok n -> Forall (fun c => c <> TAB) n -> py_isspace (last n 0) = false -> clean_num n <> [] -> valid_text n = true ->
+  written_text ut ->
+  let L := encode ut ++ NL :: 15 :: [NL] in
+  none_starts block_lits L = true -> p_safe L = true -> starts_with SUBH L = false -> no_ctl_start (encode ut) = true ->
+  (1 <= k)%nat ->
+  let tag := hier_name kw in
+  let cand := candidate prefix tag (clean_num n) in
+  convert uri (of_string "hier_element") prefix (kw ++ 32 :: n ++ NL :: repeat NL b ++ repeat SP k ++ encode ut ++ [NL])
+  = OkR (hier_x_nh tag [(EID, cand)] [(EID, cand ++ DUSCORE ++ P1)] n (decode ut)).
+Proof. exact hier_element_converts_nh. Qed.
+Print Assumptions C04_hier_element_without_heading_converts.
+
+Example C04_hier_element_without_heading_example :
+  convert (of_string "/akn/za/act/2009/1") (of_string "hier_element") (of_string "sec_4")
+          (of_string "SUBSEC (2)" ++ NL :: NL :: of_string "    The Minister may / delegate 50% of_them" ++ [NL])
+  = OkR (hier_x_nh (of_string "subsection") [(EID, of_string "sec_4__subsec_2")] [(EID, of_string "sec_4__subsec_2__p_1")]
+                   (of_string "(2)") (of_string "The Minister may / delegate 50% of_them")).
+Proof. vm_compute. reflexivity. Qed.
 
 (* the instance the theorem predicts, evaluated: a synonym keyword, a num with punctuation, three blanks of indentation *)
 Example C04_hier_element_converts_example :
